@@ -84,7 +84,12 @@ def untyped_record(tumor="T1", normal="N1", chrom="1", start="10", end="12", nam
 
 
 class Loc(Locatable):
-    """A plain locatable (no barcodes)."""
+    """A plain locatable (no barcodes).  Remembers what it was built from: the oracle's view of the input must not go
+    through the library's own constructor."""
+
+    def __init__(self, chromosome, start, end):
+        self.given = (chromosome, start, end)
+        Locatable.__init__(self, chromosome, start, end)
 
     def __repr__(self):
         return "Loc(%r,%r,%r)" % (self.chromosome, self.start, self.end)
@@ -105,19 +110,22 @@ def kv(v):
 def loc_json(obj):
     """What a sort order reads from the object, through the same accessors the library uses."""
     if isinstance(obj, MafRecord):
-        try:
-            c, s, e = obj.chromosome, obj.start, obj.end
-            has = True
-        except KeyError:
+        # straight from the columns the record holds (the oracle's view of the input does not go through the record's
+        # convenience accessors)
+        def cell(column):
+            try:
+                c = obj[column]
+            except Exception:  # noqa
+                return None, False
+            return (None, False) if c is None else (c.value, True)
+        (c, hc), (s, hs), (e, he) = cell("Chromosome"), cell("Start_Position"), cell("End_Position")
+        has = hc and hs and he
+        if not has:
             c = s = e = None
-            has = False
-        except (AttributeError, TypeError):
-            c = s = e = None
-            has = False
-        return {"hasCoords": has, "tumor": kv(obj.value("Tumor_Sample_Barcode")),
-                "normal": kv(obj.value("Matched_Norm_Sample_Barcode")), "chr": kv(c), "start": kv(s), "stop": kv(e)}
-    return {"hasCoords": True, "tumor": None, "normal": None, "chr": kv(obj.chromosome), "start": kv(obj.start),
-            "stop": kv(obj.end)}
+        return {"hasCoords": has, "tumor": kv(cell("Tumor_Sample_Barcode")[0]),
+                "normal": kv(cell("Matched_Norm_Sample_Barcode")[0]), "chr": kv(c), "start": kv(s), "stop": kv(e)}
+    c, s, e = getattr(obj, "given", (obj.chromosome, obj.start, obj.end))
+    return {"hasCoords": True, "tumor": None, "normal": None, "chr": kv(c), "start": kv(s), "stop": kv(e)}
 
 
 def order_obj(name, contigs):
@@ -278,3 +286,12 @@ def order_via(route, name, contigs, tmp):
     if route == "record-bound":
         return MafHeaderSortOrderRecord(value=cls(contigs=contigs or None)).value
     raise KeyError(route)
+
+
+def retarget(rec, other):
+    """Change `rec` IN PLACE (column.value = ...) so that it carries the location and barcodes of `other` (a record of the
+    same kind); returns the text the record has now, rendered from fresh column objects (not from the record's str())."""
+    for n in ("Tumor_Sample_Barcode", "Matched_Norm_Sample_Barcode", "Chromosome", "Start_Position", "End_Position"):
+        if n in rec and n in other:
+            rec[n].value = other[n].value
+    return "\t".join(str(type(c)(c.key, c.value, c.column_index)) for c in rec.values())
